@@ -159,6 +159,23 @@ def run_one(ctx, label, img, meta, ops, mnt):
             clk.t = clock_tuple(i + 1)
             ctx.dist[op[0]] += 1
             kinds.add(op[0])
+            if op[0] in ("create", "touch"):
+                try:
+                    if ref.isdir(op[1]):
+                        # create / touch on an existing DIRECTORY: the reference answers False / succeeds, pyfatfs raises FileExpected; the
+                        # documentation is silent, both are defensible: not part of the comparison (the generator avoids it where it can tell)
+                        ctx.dist["skipped:create-on-directory"] += 1
+                        continue
+                except Exception:  # noqa
+                    pass
+            if op[0] in ("makedir", "makedirs") and len(op) > 2 and op[2]:
+                try:
+                    if ref.isfile(op[1]):
+                        # makedir(recreate=True) on an existing FILE: DirectoryExists per the documentation, DirectoryExpected in the reference
+                        ctx.dist["skipped:recreate-on-file"] += 1
+                        continue
+                except Exception:  # noqa
+                    pass
             if op[0] in ("copy", "move", "makedir") and file_ancestor(ref, op):
                 # a proper ancestor of an operand is a FILE: the documented answer of copy / move / makedir is "resource not found";
                 # the reference has quirks there (it moves a file "into" a file, trips an internal assertion in makedir), so it is not consulted
